@@ -751,7 +751,7 @@ func init() {
 		c.Group("C09/running-set", "operators are registered under their own region id, removed only by identity, admitted only after checkAddOperator under the controller lock; its atoms reject missing region, epoch mismatch, lower priority, non-created, expired", func() { ruleOneOperatorPerRegion(c) })
 		c.Group("C09/removed-buried", "leaving the running set ⇒ end status and recorded", func() { ruleRemovedIsBuried(c) })
 		c.Group("C09/command-stamp", "commands enter the stream only through SendMsg/SendErr, stamped from the dispatched region; every step type can be sent", func() { ruleCommandsStamped(c) })
-		c.Group("C09/stale-detection", "heartbeat dispatch sends only when not stale; staleness = failed step precondition or conf-version delta above the steps' accounting", func() { ruleStaleDetection(c) })
+		c.Group("C09/stale-detection", "heartbeat dispatch sends only when not stale; staleness = failed step precondition or conf-version delta above the steps' accounting", func() { ruleStaleDetection(c); ruleStepPreconditionsMatchPlanner(c) })
 		c.Group("C09/id-kind", "peer ids, store ids and region ids are never mixed in server/...", func() { ruleIDKinds(c) })
 	})
 }
